@@ -502,6 +502,30 @@ func (ch c14) Run(c *core.Ctx) {
 				continue
 			}
 		}
+		// a value of a few KiB in messages of one byte each (with an empty message behind every one in half
+		// of the runs): thousands of messages for one field - how the stream is split is the client's
+		// business, whatever the number
+		if i%20 == 7 {
+			lt := c14table{OIDs: []uint32{pg.OIDInt4, pg.OIDBytea, pg.OIDText}, Trailer: i%40 == 7}
+			for r := 0; r < 2; r++ {
+				lt.Rows = append(lt.Rows, []any{int32(i + r), rng.Bytes(1030 + rng.Intn(2200)), strings.Repeat("long text value ", 70+rng.Intn(60))})
+			}
+			ls, _ := lt.encode()
+			cuts := make([]int, 0, len(ls))
+			for k := 1; k < len(ls); k++ {
+				cuts = append(cuts, k)
+			}
+			lcs := map[string]any{"oids": lt.OIDs, "rows": 2, "stream_len": len(ls), "split": "one byte per message"}
+			obs, ok := ch.runStream(c, env, lt, ls, cuts, i%3 == 0, lcs)
+			if !ok {
+				continue
+			}
+			c.Count("values_spread_over_more_than_a_thousand_messages", 4)
+			c.Eval(fmt.Sprintf("long values one byte per message %d", i%3), true)
+			if !ch.checkRows(c, lt, obs, 2, "eof", "values of a few KiB, one byte per message", lcs) {
+				continue
+			}
+		}
 		// cuts at row boundaries only, with empty messages interleaved
 		if !run(rowEnds, true, "row-aligned with empty messages") {
 			continue
